@@ -74,7 +74,41 @@ func c05Canon(o object.PanObject) string {
 	return "val:" + safeInspect(o)
 }
 
+// c05ChainProbes (no model involved): a list chain with several arguments over receivers that resolve the name in
+// different ways (own method, inherited method, `_missing` of a prototype, own `_missing`) gives, element by element,
+// what the same call gives on each receiver alone - whatever the earlier elements resolved through
+func c05ChainProbes(c *Ctx) {
+	prelude := "P := {_missing: m{|name| [\"P\", name, \\0[2:]]}, own: m{[\"P.own\", \\0[1:]]}}\n" +
+		"a := P.bear({tag: 'a})\nb := P.bear({tag: 'b, foo: m{[\"b.foo\", \\0[1:]]}})\nq := P.bear({tag: 'q, _missing: m{|name| [\"q\", name, \\0[2:]]}})\nd := b.bear({tag: 'd})\n"
+	orders := []string{"[a, b, q, d]", "[b, a, d, q]", "[q, a, a, b]", "[a, a, b, b, q, d]", "[d, q, b, a]"}
+	argLists := []string{"", "1", "1, 2", "1, 2, 3", "1, 2, 3, 4", "1, 2, 3, 4, 5", "1, 2, 3, 4, 5, 6", "1, 2, 3, 4, 5, 6, 7", "1, 2, 3, k: 4"}
+	for oi, ord := range orders {
+		for ai, args := range argLists {
+			for _, name := range []string{"foo", "own", "zz"} {
+				if !c.Mine() {
+					continue
+				}
+				call := name
+				if args != "" {
+					call += "(" + args + ")"
+				}
+				src := prelude + fmt.Sprintf("xs := %s\n[xs@%s, xs@{|x| x.%s}, xs=@%s]", ord, call, call, call)
+				o := c.It.Run(src, "")
+				rec := Rec{Src: src, Impl: o.Canon(), NT: true, Tags: []string{"chain-probe", fmt.Sprintf("order%d", oi), fmt.Sprintf("args%d", ai)}}
+				arr, ok := o.Obj.(*object.PanArr)
+				if o.Kind != "val" || !ok || len(arr.Elems) != 3 {
+					rec.Oracle = "chain probe did not evaluate: " + o.Canon() + " " + o.ErrMsg
+				} else if a0, a1, a2 := safeInspect(arr.Elems[0]), safeInspect(arr.Elems[1]), safeInspect(arr.Elems[2]); a0 != a1 || a0 != a2 {
+					rec.Oracle = fmt.Sprintf("xs@%s gives %s, calling each element separately gives %s (strict chain %s)", call, a0, a1, a2)
+				}
+				c.Em.Emit(rec)
+			}
+		}
+	}
+}
+
 func genC05(c *Ctx) {
+	c05ChainProbes(c)
 	n := 350
 	if c.Thorough() {
 		n = 6000
